@@ -73,6 +73,9 @@ func NewCtx(id, tier, level string) *Ctx {
 		violations: map[string]Violation{}, vcount: map[string]int{}, Cov: map[string]any{},
 		counters: map[string]int64{}, distinct: map[string]struct{}{}, infos: map[string]int{}, Exhaustive: true}
 	fmt.Sscan(os.Getenv("VERIF_SEED"), &c.Seed)
+	if ri := os.Getenv("VERIF_RACE_INFO"); ri != "" {
+		c.Cov["race_pass_free_running"] = ri
+	}
 	return c
 }
 
